@@ -28,6 +28,7 @@ import (
 )
 
 func TestVFReplay(t *testing.T) {
+	vfNativeInit()
 	vfLoadCex()
 	h := vfHarnessTab[vfC.Harness]
 	if h == nil {
@@ -131,7 +132,15 @@ func replayNative(repo, root string, r HarnessRun, v *sym.Violation, cexPath str
 	if strings.HasPrefix(v.ID, "terminates") {
 		tries = "1"
 	}
-	cmd := exec.Command("go", "test", "-mod=mod", "-vet=off", "-count=1", "-v", "-run", "^TestVFReplay$", "-overlay", ovPath, "-timeout", "280s", "./"+dir)
+	args := []string{"test", "-mod=mod", "-vet=off", "-count=1", "-v", "-run", "^TestVFReplay$", "-overlay", ovPath, "-timeout", "280s"}
+	if v.ID == "no-race" {
+		// a data race is confirmed by the Go race detector on the native build
+		args = append(args, "-race")
+		tries = "300"
+		kind = "schedule (stress, go test -race)"
+	}
+	args = append(args, "./"+dir)
+	cmd := exec.Command("go", args...)
 	cmd.Dir = repo
 	var env []string
 	for _, e := range os.Environ() {
@@ -158,6 +167,8 @@ func replayNative(repo, root string, r HarnessRun, v *sym.Violation, cexPath str
 	switch {
 	case strings.Contains(txt, "VF-CONFIRMED "+want):
 		return true, "reproduced natively (" + kind + " replay)"
+	case want == "no-race" && strings.Contains(txt, "WARNING: DATA RACE"):
+		return true, "data race reported by the Go race detector on the native build (" + kind + ")"
 	case want == "no-panic" && strings.Contains(txt, "VF-PANIC"):
 		return true, "panic reproduced natively"
 	case want == "no-panic" && (strings.Contains(txt, "panic:") || strings.Contains(txt, "fatal error:")):
